@@ -17,7 +17,7 @@ cd /verif
 git -C /repo apply $D/patch.diff || { echo "patch does not apply to /repo"; exit 2; }
 for c in $CHECKS; do
   echo "== check $c against the change"
-  ./bin/check $c --tier quick > /tmp/seed/$P.$c.check.log 2>&1; echo "exit $?"
+  VERIF_EVIDENCE_DIR=/tmp/seed/evidence ./bin/check $c --tier quick > /tmp/seed/$P.$c.check.log 2>&1; echo "exit $?"
   grep -E "^VIOLATION" -A1 /tmp/seed/$P.$c.check.log | head -8
   tail -1 /tmp/seed/$P.$c.check.log
 done
